@@ -253,7 +253,10 @@ func findPool(ps []poolView, name string) *poolView {
 
 // vOp is one generated operation.
 type vOp struct {
-	kind   string
+	// unbranched: the routed handler runs on the block's own context (a caller that does not
+	// branch the state for it); whatever it wrote before refusing stays
+	unbranched bool
+	kind       string
 	signer chain.Key
 	msg    sdk.Msg
 	fee    sdk.Coins
@@ -401,10 +404,11 @@ func (e *vestEnv) genOp0(r *rand.Rand, now time.Time) vOp {
 		x = 62 + r.Intn(28) // split / move / delegate
 	}
 	// a vesting account with spendable coins may lock them in a pool of its own like anybody
-	// else; once it has one it sends and withdraws from it
+	// else (once it has one it sends and withdraws from it), and it may pay for the vesting
+	// account of somebody else
 	if r.Intn(10) == 0 && len(e.cvaKeys) > 0 {
 		cand := e.cvaKeys[r.Intn(len(e.cvaKeys))]
-		if x < 14 || len(pools[cand.Bech()]) > 0 {
+		if x < 14 || (x >= 54 && x < 62) || len(pools[cand.Bech()]) > 0 {
 			owner = cand
 			if fee != nil && !e.n.App.BankKeeper.SpendableCoins(e.n.Ctx(), owner.Addr).IsAllGTE(fee) {
 				fee = nil
@@ -670,7 +674,25 @@ func (e *vestEnv) exec(op vOp, now time.Time) (*txOutcome, error) {
 		o.preSpendable = coinsMap(e.n.App.BankKeeper.SpendableCoins(e.n.Ctx(), actor))
 	}
 	var res abci.ResponseDeliverTx
-	if op.signer.Priv == nil {
+	if op.unbranched {
+		o.op.fee, op.fee = nil, nil
+		var herr error
+		var hres *sdk.Result
+		if p := safeCall("handler", func() {
+			if herr = op.msg.ValidateBasic(); herr == nil {
+				hres, herr = e.n.App.MsgServiceRouter().Handler(op.msg)(e.n.Ctx(), op.msg)
+			}
+		}); p != nil {
+			return nil, p
+		}
+		if hres != nil {
+			res.Events = hres.Events
+			res.Data, _ = proto.Marshal(&sdk.TxMsgData{MsgResponses: hres.MsgResponses})
+		}
+		if herr != nil {
+			res.Code, res.Log = 1, herr.Error()
+		}
+	} else if op.signer.Priv == nil {
 		// the governance account signs nothing: its message runs as an accepted proposal does
 		o.op.fee, op.fee = nil, nil
 		gres, evs, gerr := e.n.GovExec(op.msg)
